@@ -9,7 +9,8 @@ import random
 ID = "C02"
 LEVEL = "exploration"
 BUDGET = {"quick": 50, "thorough": 900}
-FLOOR = {"quick": 5000, "thorough": 50000}
+QUICK_CASES = 2000  # generator items in the quick tier (fixed amount of work; BUDGET is then only a safety cap)
+FLOOR = {"quick": 30000, "thorough": 50000}
 TIMEOUT = 120
 REQUIRED_OBS = ["programs_compared", "tracer_events", "exceptions_agreed", "enumerated_programs"]
 RULE = (
